@@ -89,9 +89,7 @@ func layoutBases(r *rand.Rand, n int) []string {
 		if r.Intn(5) == 0 {
 			src = mutateSource(r, src, 1) // also rejected programs must stay rejected
 		}
-		if !strings.Contains(src, "`") { // raw multi-line literals contain layout that is data
-			out = append(out, src)
-		}
+		out = append(out, src)
 	}
 	for _, g := range extraLayoutBases {
 		out = append(out, g)
@@ -100,6 +98,8 @@ func layoutBases(r *rand.Rand, n int) []string {
 }
 
 var extraLayoutBases = []string{
+	"usage := `usage: prog\n  -a  all\n  -b  both`\nprint(usage)\nprint(len(usage))\n",
+	"msg := \"line one\nline two\"\nfunc show(s string) string {\n\treturn s + `\n<end>`\n}\nprint(show(msg))\n",
 	"import (\n\t\"strings\"\n)\nswitch 2 {\ncase 1:\n\tprint(\"a\")\ncase 2:\n\tprint(strings.Contains(\"ab\", \"b\"))\ndefault:\n\tprint(\"c\")\n}\n",
 	"import \"strings\"\nfunc f(a int, b int) (int, int) {\n\treturn a + b, a * b\n}\nx, y := f(2, 3)\nif x > y {\n\tprint(x)\n} else if x == y {\n\tprint(0)\n} else {\n\tprint(y, strings.Repeat(\"a\", 2))\n}\n",
 	"s := []int{1, 2, 3}\nfor i, v := range s {\n\tif v == 2 {\n\t\tcontinue\n\t}\n\tprint(i, v)\n}\nfor i := 0; i < 2; i++ {\n\tswitch {\n\tcase i == 0:\n\t\tprint(\"zero\")\n\tdefault:\n\t\tprint(\"more\")\n\t}\n}\n",
